@@ -117,6 +117,7 @@ class Policy(object):
         self.rerun_ok = False  # re-executed actions succeed
         self.crash = False  # False | "bits" (every subset of the first crash_max boundaries) | "one" | "two"
         self.crash_max = 6
+        self.crash_init = False  # also allow a persist/restore before the very first call
         self.order = True
         self.max_inflight = 4
         self.item_value = lambda i: 100 + i
@@ -214,7 +215,13 @@ class Env(object):
 
     def start(self):
         self.create()
-        self.request(S.RUNNING)
+        if self.policy.crash and self.policy.crash_init and self.ch.flag("crash_init"):
+            self.crash()
+        # a conductor whose input/vars rendering failed has already failed itself; the running
+        # request is then a lifecycle rejection, not an escaped error
+        e = self.try_request(S.RUNNING)
+        if e is not None and self.status() not in (S.FAILED,):
+            self.violation("escape", "request_workflow_status(running) on a new conductor raised %s: %s" % (type(e).__name__, e), call="request_workflow_status", exc=type(e).__name__)
         self.offers()
 
     def request(self, status, expect=()):
